@@ -157,5 +157,5 @@ func checkRoomID(res *eventV3) error {
 	if !isCreateEvent && !strings.HasPrefix(res.eventFields.RoomID, "!") {
 		return fmt.Errorf("gomatrixserverlib: room_id must start with !")
 	}
-	return nil
+	return checkIDLength(res.eventFields.RoomID, "room")
 }
